@@ -52,13 +52,19 @@ CLAIMS = {
          "with model and specification on Stat sequences hitting every 3-bit value at every position and all timeouts 0..14.",
          "The text of the banner lines is compared through the harness (kind, counts, code number), rendering itself is C16.",
          "Lean 4 proof (induction over fuel/cycles) + differential oracle"),
- "C07": ("Lean theorems C07_soundness / C07_cycle / C07_expression: from a well-typed state, any number of cycles of a program "
-         "satisfying ProgramOK (every assignment accepted by the checker and width-fixed, reads scheduled after writes) ends "
-         "each cycle in a well-typed state or an explicit DivideByZero; every Rust panic site of evaluate/apply/step/"
-         "process_register_banks is modelled as Err.fail and shown unreachable; all values fit their declared widths.",
-         "ProgramOK is established for the real scheduler's output per produced schedule (schedValid) and by the acceptance "
-         "path of the model; the theorem Program.new => ProgramOK is future work (DESIGN.md C07).",
-         "Lean 4 proof (type soundness by induction over expressions, actions, cycles) + differential oracle"),
+ "C07": ("Lean theorem C07_accepted, with no hypothesis about the schedule: for every statement list whose constants fit their widths "
+         "and whose declared widths are at most 128, every flag set, every Unicode classification of bank letters and every "
+         "iteration order of the hash tables (any permutation), if the model of Program::new accepts, then Program::initial_state "
+         "succeeds and from it, on every memory image, any number of cycles either all succeed or the run stops with an explicit "
+         "DivideByZero; every Rust panic site of initial_state/evaluate/apply/step/process_register_banks is modelled as Err.fail and "
+         "shown unreachable, and all values fit their declared widths (C07_values_fit). It rests on Program_new_sound (an accepted "
+         "program satisfies ProgramOK: every action well-typed, every read after its write, every bank signal and default present and "
+         "typed), proved through invariants of each stage of Program::new (step 1 tables, resolved constants, register banks, the "
+         "width table where no built-in, register, control or constant name clobbers another, preprocess_fixed, the sorter on the "
+         "built graph, the loop of assignments_to_actions) and on C07_soundness/C07_cycle (induction over cycles).",
+         "The hypothesis StmtsWF (constants fit, widths <= 128) is what the lexer and the grammar guarantee (Tie.Grammar bounds, "
+         "lexer model); it is tied by the correspondence streams, not by a parser theorem.",
+         "Lean 4 proof (stage invariants of Program::new, type soundness by mutual induction, induction over cycles) + differential oracle"),
  "C08": ("Lean theorem C08_accept_iff_rules / check_eq_typeOf: for every setting of the five flags, every context and every "
          "expression (all operators, nestings, widths), get_width_and_check's model accepts at width w if and only if the "
          "documented width rules Spec.typeOf (equal-or-unsized operands for bitwise/shift/comparison/in, boolean operands for "
